@@ -74,6 +74,23 @@ def swizzle_masks(n, seed, nseed, thorough):
                 m = ident[:]
                 m[i] = j
                 M.append(m)
+    # near misses of the regular patterns (what a fast-path detector with one wrong index variable / offset would still
+    # accept): one lane of a regular base takes the value a neighbouring lane, the same lane of the next 4-group / 128-bit
+    # group, or the adjacent element has in that base
+    bases = [ident, ident[::-1], [i ^ 1 for i in range(n)], [(i + n // 2) % n for i in range(n)], [i // 2 for i in range(n)], [(2 * i) % n for i in range(n)]]
+    for g in (4, 8, 16):
+        if g < n:
+            bases.append([(i // g) * g + (g - 1 - i % g) for i in range(n)])      # reverse inside every group
+            bases.append([(i // g) * g + ((i + 1) % g) for i in range(n)])        # rotate inside every group
+            bases.append([(i // g) * g + ((i % g) // 2) * 2 for i in range(n)])   # duplicate evens inside every group
+    near_lanes = list(range(n)) if n <= 16 else sorted(set([0, 1, 5, n // 4 + 1, n // 2 - 1, n // 2, n // 2 + 5, n - 7, n - 2, n - 1]))
+    for b in uniq(bases):
+        for i in near_lanes:
+            for v in (b[i - 1], b[(i + 1) % n], b[(i + 4) % n], b[i] ^ 1):
+                if v != b[i]:
+                    m = list(b)
+                    m[i] = v
+                    M.append(m)
     s = seed * 977 + n
     for _ in range(nseed):
         m = []
@@ -131,6 +148,21 @@ def shuffle_masks(n, seed, nseed, thorough):
                 m = list(b)
                 m[i] = (m[i] + d) % (2 * n)
                 M.append(m)
+    # near misses of the in-lane fast-path patterns and of the zip / select detectors (see swizzle_masks): one lane takes
+    # the value of a neighbouring lane, of the same lane in the next 4-group, the adjacent element, or the other operand
+    if n >= 8:
+        bases = [M[4], M[5], x, y]
+        for (a, b) in ((0, 0), (1, 3), (2, 1), (3, 2)):
+            bases.append([(i // 4) * 4 + ((a if i % 4 < 2 else b) + (i % 2)) % 4 + (n if (i % 4) >= 2 else 0) for i in range(n)])
+            bases.append([(i // 4) * 4 + ((a if i % 4 < 2 else b) + (i % 2)) % 4 + (0 if (i % 4) >= 2 else n) for i in range(n)])
+        near_lanes = list(range(n)) if n <= 16 else sorted(set([0, 1, 5, n // 4 + 1, n // 2 - 1, n // 2, n // 2 + 5, n - 7, n - 2, n - 1]))
+        for b in uniq(bases):
+            for i in near_lanes:
+                for v in (b[i - 1], b[(i + 1) % n], b[(i + 4) % n], b[i] ^ 1, (b[i] + n) % (2 * n)):
+                    if v != b[i]:
+                        m = list(b)
+                        m[i] = v
+                        M.append(m)
     s = seed * 7 + 1000 + n
     for _ in range(nseed):
         m = []
